@@ -29,6 +29,7 @@ EXPLANATION = (
   " (ITEM-source) an object built once per item of an inner loop is filled only with values that derive from that item or do not vary with the loops, never with a value of the enclosing container standing where the item's own belongs;"
   ' (LOOP-break) no loop over the items of a collection is left by a branch that does nothing but `break` on a test about the item (end-of-input sentinels, flags set in the loop body and searches whose variable is read afterwards excepted): an item that is to be skipped does not end the processing of the items after it;'
   ' (FIN-mergekey) the key under which a region is retained, interpreted on sample regions, is equal for begin unset / begin 0 and different when begin, end, writing mode or alignment differ;'
+  + " (DSP-units, shared with C03) _compute_length converts every relative unit and returns root-relative lengths (rh, rw) unchanged;"
 )
 RULE_TEXT = "per live loop, per (target kind, property), per external compute() call, per get_body() use, per range test"
 UNDECIDED = ["the text visible at every time is preserved", "idempotence", "merged regions are equivalent (timing, writing mode, alignment as values)",
@@ -376,6 +377,8 @@ def check_merge_key(ctx):
 
 
 def run(ctx):
+  from . import c03 as _c03u
+  _c03u.check_units(ctx)
   ix = ctx.ix
   _INDEX[:] = [ix]
   fs = common.scope_funcs(ctx, MODS)
